@@ -197,3 +197,56 @@ def replay_match(obligation: str = "", model: Optional[Dict[str, str]] = None, d
                                     "observed": f"inferred {type(r.constraint).__name__}({r.constraint.value}) "
                                                 f"disagrees with the comparison at length {n}"}
     return {"confirmed": False}
+
+
+# ---------------------------------------------------------------------------------------------------------------
+# bounded (examples): the constraints inferred by the real pipeline for the meta-model of native/c11.py against the
+# conjunction of its invariants worked out by hand (own class, ancestors, constrained primitives incl. a chain
+# declared child-first)
+
+def inferred_for_harness_model(seed: int = 0, **_: Any) -> Dict[str, Any]:
+    from aas_core_codegen import infer_for_schema, intermediate
+    from native import c05, c11
+    code_pattern = "^[A-Z][a-z0-9]*$"
+    expected = {
+        ("Thing", "name", ""): (3, None, []),
+        ("Carton", "name", ""): (3, 6, []),
+        ("Carton", "code", ""): (2, 5, [code_pattern]),
+        ("Carton", "labels", ""): (1, 2, []),
+        ("Carton", "labels", "items"): (None, 8, [code_pattern]),
+        ("Carton", "data", ""): (1, 4, []),
+        ("Ball", "name", ""): (3, None, []),
+        ("Ball", "tiny", ""): (1, 3, []),
+        ("URL_thing", "name", ""): (3, None, []),
+        ("Signed_URL_thing", "name", ""): (3, None, []),
+        ("Shelf", "things", ""): (1, None, []),
+    }
+    st, why = c05.translate(c11.MODEL)
+    if st is None:
+        return {"cases": 1, "distinct": 0, "exhaustive": False, "failures": [{"observed": f"model not accepted: {why[:300]}"}]}
+    res, errs = infer_for_schema.infer_constraints_by_class(symbol_table=st)
+    if errs is not None or res is None:
+        return {"cases": 1, "distinct": 0, "exhaustive": False, "failures": [{"observed": f"inference failed: {errs}"}]}
+    got: Dict[Any, Any] = {}
+    for cls, by_value in res.items():
+        for ta, cons in by_value.items():
+            where = None
+            for prop in cls.properties:
+                t = intermediate.beneath_optional(prop.type_annotation)
+                if t is ta:
+                    where = (cls.name, prop.name, "")
+                elif isinstance(t, intermediate.ListTypeAnnotation) and t.items is ta:
+                    where = (cls.name, prop.name, "items")
+            lc = cons.len_constraint
+            got[where] = ((lc.min_value if lc else None), (lc.max_value if lc else None),
+                          sorted(p.pattern for p in (cons.patterns or [])))
+    failures = []
+    for key in sorted(set(expected) | set(got), key=str):
+        e = expected.get(key)
+        g = got.get(key)
+        e2 = (e[0], e[1], sorted(e[2])) if e else None
+        if e2 != g and not (e is None and g == (None, None, [])):
+            failures.append({"where": list(key) if key else None, "expected": str(e2), "observed": f"inferred {g}, the "
+                             f"invariants of the class, its ancestors and the constrained primitives give {e2}"})
+    return {"cases": len(expected), "distinct": len(expected), "failures": failures[:6], "exhaustive": False,
+            "samples": [{"constraints": len(got)}]}
